@@ -2,6 +2,7 @@ import Driver.CscIO
 import ClarabelModel.Chordal.AugStd
 import ClarabelModel.Chordal.Reverse
 import ClarabelModel.Chordal.AugCompact
+import ClarabelModel.Chordal.PsdCompletion
 
 open Clarabel Clarabel.Chordal Driver
 
@@ -84,8 +85,44 @@ def fmtConeMaps (cm : Array ConeMapEntry) : String :=
   let c : Array Int := cm.map (fun e => match e.treeAndClique with | none => (-1 : Int) | some x => Int.ofNat x.2)
   s!"cm_oi={fmtNats (cm.map (·.origIndex))} cm_t={fmtInts t} cm_c={fmtInts c}"
 
+/-- sorted, duplicate-free -/
+def sortDedup (l : List Nat) : List Nat :=
+  (l.mergeSort (fun a b => decide (a ≤ b))).eraseDups
+
+/-- the external step of `psdComplete` (Cholesky / SVD solve and the GEMM product) replayed from
+the output `Bout` of the implementation: the entry `(a, b)` of the product of pass `j` is the
+value that the implementation left at `W[(η[a], ν[b])]`, i.e. at `Bout[(p[η[a]], p[ν[b]])]` -/
+def extFromOutput (p : SPattern) (N : Nat) (Bout : Array Float) (j : Nat) (_W : Array Float) :
+    MErr (Nat × Nat → Float) := do
+  let ν ← p.sntree.getSnode j
+  let α ← p.sntree.getSeparators j
+  let i ← getE ν 0 "psd_complete: ν[0]"
+  let η := etaOf i N α ν
+  pure (fun ab =>
+    Bout.getD (linIdx N (p.ordering.getD (η.getD ab.1 0) 0, p.ordering.getD (ν.getD ab.2 0) 0)) 0)
+
 def handle (ch : String) (kv : KV) : String :=
   match ch with
+  | "psd_complete.data" =>
+    match parseInfo kv, kv.nat "d", kv.floats "W", kv.floats "Wout" with
+    | some ci, some d, some W, some Wout =>
+      match ci.spatterns[0]? with
+      | none => "panic:spatterns[0]"
+      | some p =>
+        match psdComplete (extFromOutput p d Wout) W d p with
+        | .ok B => s!"W={fmtFloats B}"
+        | .error e => (fmtErr e).replace " " "_"
+    | _, _, _, _ => "bad-request"
+  | "psd_complete.written" =>
+    match parseInfo kv, kv.nat "d" with
+    | some ci, some d =>
+      match ci.spatterns[0]? with
+      | none => "panic:spatterns[0]"
+      | some p =>
+        match psdCompleteChanged p d with
+        | .ok l => s!"chg={fmtNats (sortDedup l).toArray}"
+        | .error e => (fmtErr e).replace " " "_"   -- one token, as on the implementation side
+    | _, _ => "bad-request"
   | "std.H" =>
     match parseInfo kv with
     | some ci => fmtME (fun (h : ChordalInfo.StdH) =>
